@@ -185,8 +185,13 @@ func (n *Node) Stop() {
 // be stopped; they keep the chain object alive, not the database.
 func (n *Node) Close() {
 	n.Stop()
-	if s, ok := n.DB.(*SoftDB); ok {
-		retire(s)
+	switch d := n.DB.(type) {
+	case *SoftDB:
+		retire(d)
+	case *CrashDB:
+		if s, ok := d.DB.(*SoftDB); ok {
+			retire(s)
+		}
 	}
 }
 
